@@ -1736,7 +1736,29 @@ def judge(run, w, item, obs, twin_fetch):
 # cases
 # ---------------------------------------------------------------------------------------------------------------------
 
+DIRECTED = [
+    # image/blank exception handlers echo FORMAT as content type (open known finding: reproduced in every run)
+    {'scn': 'A', 'svc': 'wms', 'op': 'getmap-error-blank_1.1.1', 'mut': 'markup', 'param': 'FORMAT', 'marker': 'zq900001',
+     'payload': ',zq900001',
+     'req': {'m': 'GET', 'path': '/service', 'h': {},
+             'qs': 'SERVICE=WMS&VERSION=1.1.1&REQUEST=GetMap&LAYERS=nosuchlayer&STYLES=&SRS=EPSG:3857&BBOX=1000000.0,6000000.0,'
+                   '1200000.0,6200000.0&WIDTH=120&HEIGHT=80&FORMAT=image/png,zq900001&EXCEPTIONS=application/vnd.ogc.se_blank'},
+     'twin': {'m': 'GET', 'path': '/service', 'h': {},
+              'qs': 'SERVICE=WMS&VERSION=1.1.1&REQUEST=GetMap&LAYERS=nosuchlayer&STYLES=&SRS=EPSG:3857&BBOX=1000000.0,6000000.0,'
+                    '1200000.0,6200000.0&WIDTH=120&HEIGHT=80&FORMAT=image/png,zq900001&EXCEPTIONS=application/vnd.ogc.se_blank'}},
+    {'scn': 'A', 'svc': 'wms', 'op': 'getmap-error-in-image_1.3.0', 'mut': 'markup', 'param': 'FORMAT', 'marker': 'zq900002',
+     'payload': ',zq900002',
+     'req': {'m': 'GET', 'path': '/ows', 'h': {},
+             'qs': 'SERVICE=WMS&VERSION=1.3.0&REQUEST=GetMap&LAYERS=cached,nosuchlayer&STYLES=&CRS=EPSG:3857&BBOX=1000000.0,6000000.0,'
+                   '1200000.0,6200000.0&WIDTH=333&HEIGHT=17&FORMAT=image/png,zq900002&EXCEPTIONS=INIMAGE'},
+     'twin': {'m': 'GET', 'path': '/ows', 'h': {},
+              'qs': 'SERVICE=WMS&VERSION=1.3.0&REQUEST=GetMap&LAYERS=cached,nosuchlayer&STYLES=&CRS=EPSG:3857&BBOX=1000000.0,6000000.0,'
+                    '1200000.0,6200000.0&WIDTH=333&HEIGHT=17&FORMAT=image/png,zq900002&EXCEPTIONS=INIMAGE'}},
+]
+
+
 def gen_cases(run):
+    yield {'i': -1, 'items': DIRECTED}
     n = run.pick(1800, 30000)
     for i in range(n):
         yield {'i': i}
@@ -1854,7 +1876,8 @@ def cause_of(clause, item, obs, text=''):
         known = set(PIL_FORMAT) | set(XML_TYPES) | {'text/plain', 'text/html', 'application/json'}
         if ctype and ctype.lower() not in known:
             for k, v in own_qs(item['req'].get('qs') or ''):
-                if v and v == ctype:
+                # (MapProxy strips control and non-ASCII characters from the header value)
+                if v and (v == ctype or ''.join(c for c in v if ' ' <= c <= '~') == ctype):
                     return 'parameter_%s_echoed_as_content_type' % k.upper()
     if clause == 'image_empty' and 'featureinfo' in item['op']:
         return 'empty_featureinfo_answer_declared_as_image'
